@@ -320,6 +320,32 @@ def threads(ctx, seed, ref, nthreads):
             break
 
 
+def poison(ctx, seed, ref):
+    """call, damage every container of the result, then call the same function with OTHER arguments (a cache miss that may
+    share library-internal state with the damaged object) and the first call again: both must be what an uncached process
+    returns"""
+    rng = random.Random(seed)
+    c1 = random_call(rng)
+    for _ in range(40):
+        c2 = random_call(rng)
+        if c2[0] == c1[0] and (c2[1], c2[2]) != (c1[1], c1[2]):
+            break
+    else:
+        return
+    r1 = local_call(c1[0], copy.deepcopy(c1[1]), copy.deepcopy(c1[2]))
+    if r1[0] != 'ok' or not isinstance(r1[1], (dict, list)):
+        return
+    mutate_all(r1[1])
+    ctx.case(('poison', seed), True, 'poison:' + c1[0])
+    for c in (c2, c1):
+        got = norm(local_call(c[0], copy.deepcopy(c[1]), copy.deepcopy(c[2])))
+        want = norm(ref.call(*c))
+        if got != want:
+            ctx.violation('memo.BSEMemoize', 'poison', 'after every container of the result of %s%s %s was edited, the call %s%s %s returns something else than an uncached process'
+                          % (c1[0], c1[1], c1[2], c[0], c[1], c[2]), {'kind': 'poison', 'seed': seed})
+            break
+
+
 def cold_threads(ctx, seed, nthreads):
     """threads that all miss the cache of the SAME memoised function with DIFFERENT arguments at the same time; afterwards
     every key is queried again and compared with the uncached function.  Cold keys without touching the cache: the data
@@ -380,6 +406,8 @@ def run(ctx):
     try:
         for i in range(ctx.budget(25, 600)):
             history(ctx, ctx.seed * 13 + i, ref)
+        for i in range(ctx.budget(60, 1500)):
+            poison(ctx, ctx.seed * 5 + i, ref)
         for i, nt in enumerate([2, 4, 8, 16] * ctx.budget(1, 10)):
             threads(ctx, ctx.seed * 7 + i, ref, nt)
         for i, nt in enumerate([4, 8, 16] * ctx.budget(1, 10)):
@@ -396,6 +424,8 @@ def replay(ctx, rec):
             history(ctx, r['seed'], ref)
         elif r.get('kind') == 'threads':
             threads(ctx, r['seed'], ref, r['nthreads'])
+        elif r.get('kind') == 'poison':
+            poison(ctx, r['seed'], ref)
         elif r.get('kind') == 'cold-threads':
             cold_threads(ctx, r['seed'], r['nthreads'])
         else:
